@@ -67,8 +67,8 @@ CHECKS = {
  "C11": dict(
    technique="property-based testing with process isolation: generated recursive program shapes (cycles over macro / call-block / include (literal, list, list with a missing first entry, ignore missing, computed name) / import edges, recursive loops over deep data and recursive loops that hand themselves the same data again (directly, through an aliased loop object called from a nested loop or with block; a host function counts the levels, so an uncut recursion is a verdict, not a timeout), block self-calls, super() chains, with random non-recursive work per frame) rendered in worker processes of debug and release builds on 2 MiB and 8 MiB threads; outcome oracle (limit error / Ok, never a signal) plus monotonicity in the limit",
    level="exploration",
-   text="Each generated shape is rendered with a generated recursion limit in a child process; the child must survive, unbounded shapes must fail with `recursion limit exceeded` somewhere in the cause chain, bounded ones may also succeed, no other error is accepted, and lowering the limit must not make the limit error disappear. Process deaths are attributed to the shape (edge kinds) that was running.",
-   note="One listed finding: block self-recursion and deep super() chains overflow 2 MiB stacks in debug builds (pinned accounting); crash signatures naming the block edge are tolerated, all others are violations. The engine is built with the full feature set only: a defect confined to a reduced feature set (macros without multi_template; seeded change C11/7) is outside what this check reaches.",
+   text="Each generated shape is rendered with a generated recursion limit in a child process; the child must survive, unbounded shapes must fail with `recursion limit exceeded` somewhere in the cause chain, bounded ones may also succeed, no other error is accepted, and lowering the limit must not make the limit error disappear. Process deaths are attributed to the shape (edge kinds) that was running. The same question is also put to the engine built with four reduced feature sets (macros only, multi_template only, neither, both): 14 recursive shapes x 4 limits x 2 stack sizes in the binaries of the dependency-free crate harness-min, one process per case.",
+   note="One listed finding: block self-recursion and deep super() chains overflow 2 MiB stacks in debug builds (pinned accounting); crash signatures naming the block edge are tolerated, all others are violations.",
    design="3/C11"),
  "C12": dict(
    technique="property-based testing: metamorphic relation over four configurations (Strict/SemiStrict/Lenient/Chainable renders of the same generated program), plus complete enumeration of the documented site x mode matrix",
